@@ -16,7 +16,16 @@
 
    The schema lists a file's messages flat in declaration pre-order (a message, then its nested
    messages), which is the order in which every validator of the code walks them
-   ("for msg in messages { check msg; recurse(msg.Messages) }"). *)
+   ("for msg in messages { check msg; recurse(msg.Messages) }").
+
+   The synthetic "<Field>Entry" messages protoc adds to nested_type for map fields are NOT part of
+   that list: their key/value fields cannot carry sebuf annotations, and on the current tree every
+   validator recurses over ALL of msg.Messages, so neither the presence of an entry nor its position
+   among the declared nested messages (protoc interleaves them in declaration order:
+   nested_type = [LabelsEntry; Settings] when the map field is written before `message Settings`)
+   influences the verdict.  That independence is an assumption of this abstraction about the code;
+   it is tied to the source by the correspondence family "nested-map-order" (harness/lib/cat_c12.go:
+   every rule x entry before / after / around / between the nested declarations, depth 1 and 2). *)
 From Sebuf Require Export Schema.
 
 (* ---- small helpers ------------------------------------------------------------------------ *)
